@@ -385,6 +385,38 @@ var nilHosts = []nilHost{
 	}},
 }
 
+// long lists with the nil-like member at the head, in the middle and at the end: sizes past the usual thresholds (16, 32, 64, 256)
+func init() {
+	for _, n := range []int{17, 33, 70, 300} {
+		for _, pos := range []string{"first", "middle", "last"} {
+			n, pos := n, pos
+			mk := func(it vocab.Item) vocab.ItemCollection {
+				at := map[string]int{"first": 0, "middle": n / 2, "last": n - 1}[pos]
+				l := make(vocab.ItemCollection, 0, n)
+				for i := 0; i < n; i++ {
+					switch {
+					case i == at:
+						l = append(l, it)
+					case i%3 == 1:
+						l = append(l, &vocab.Object{ID: vocab.IRI(fmt.Sprintf("https://example.com/long/%d", i)), Type: vocab.NoteType})
+					default:
+						l = append(l, vocab.IRI(fmt.Sprintf("https://example.com/long/%d", i)))
+					}
+				}
+				return l
+			}
+			nilHosts = append(nilHosts,
+				nilHost{fmt.Sprintf("Object.tag+cc[%s of %d]", pos, n), func(it vocab.Item) vocab.Item {
+					return &vocab.Object{ID: "https://example.com/h", Type: vocab.NoteType, Tag: mk(it), CC: mk(it)}
+				}},
+				nilHost{fmt.Sprintf("OrderedCollection.orderedItems[%s of %d]", pos, n), func(it vocab.Item) vocab.Item {
+					return &vocab.OrderedCollection{ID: "https://example.com/h", Type: vocab.OrderedCollectionType, OrderedItems: mk(it)}
+				}},
+				nilHost{fmt.Sprintf("top-level list[%s of %d]", pos, n), func(it vocab.Item) vocab.Item { return mk(it) }})
+		}
+	}
+}
+
 type hostOp struct {
 	Name string
 	Run  func(host vocab.Item)
